@@ -20,10 +20,10 @@ type c04svc struct {
 func c04Universe(tier string, triples bool) []c04svc {
 	hostsets := []string{"-", "example.com", "a.example.com", "*.example.com", "*.a.example.com", "b.example.com", "localhost",
 		"a.example.com,b.example.com", "example.com,*.example.com", "-,localhost", "*.a.example.com,a.example.com"}
-	pathsets := []string{"/", "/api", "/apiary", "/api/v2", "/a", "/,/api", "api/,/api/v2", "/api/,/a", "/apiary,/api"}
+	pathsets := []string{"/", "/api", "/apiary", "/api/v2", "/a", "/,/api", "api/,/api/v2", "/api/,/a", "/apiary,/api", "/,/api,/a"}
 	if triples {
 		hostsets = []string{"-", "a.example.com", "*.example.com", "*.a.example.com", "example.com,localhost", "a.example.com,b.example.com"}
-		pathsets = []string{"/", "/api", "/apiary", "/api/v2", "/,/api/v2"}
+		pathsets = []string{"/", "/api", "/apiary", "/api/v2", "/,/api/v2", "/,/apiary,/a"}
 	}
 	var u []c04svc
 	for _, h := range hostsets {
@@ -92,6 +92,13 @@ func c04Histories(table []c04svc) [][]string {
 	res = append(res, append(append([]string{}, base...), "remove s1"))
 	res = append(res, append(append([]string{}, base...), fmt.Sprintf("deploy s1 h=z.example.org p=%s", table[0].paths)))
 	res = append(res, append(append([]string{}, base...), fmt.Sprintf("deploy s%d h=z.example.org p=/zz", len(table)), "restart"))
+	// the same table with the service names in the opposite order (the order in which
+	// the implementation walks its services must not matter)
+	var rev []string
+	for i := range table {
+		rev = append(rev, fmt.Sprintf("deploy t%d h=%s p=%s", len(table)-i, table[i].hosts, table[i].paths))
+	}
+	res = append(res, rev)
 	return res
 }
 
@@ -101,7 +108,7 @@ func checkC04(t *testing.T, job *Job, res *Result) {
 		tier = job.Replay.Tier
 	}
 	res.Engine = "E"
-	res.Rule = "tables = every conflict-free set of 2 services (and, over a smaller universe, 3 services) with 1-2 hosts from {default, example.com, a.example.com, *.example.com, *.a.example.com, b.example.com, localhost} and 1-2 path prefixes from {/, /api, /apiary, /api/v2, /a} (some spelled un-normalised); for each table every permutation of the deploy order, one history with remove+redeploy, one ending in a restart, one removing a service, two moving a service to another host (the second followed by a restart); requests: 12 Host headers (ports, IPv6 literals, single label, multi-level subdomains, empty) x 12 paths (look-alikes, trailing and empty segments); oracle: 25-line reference routing function; all orders must agree with it"
+	res.Rule = "tables = every conflict-free set of 2 services (and, over a smaller universe, 3 services) with 1-2 hosts from {default, example.com, a.example.com, *.example.com, *.a.example.com, b.example.com, localhost} and 1-2 path prefixes from {/, /api, /apiary, /api/v2, /a} (some spelled un-normalised); for each table every permutation of the deploy order, one history with remove+redeploy, one ending in a restart, one removing a service, two moving a service to another host (the second followed by a restart), one with the service names in the opposite order; requests: 12 Host headers (ports, IPv6 literals, single label, multi-level subdomains, empty) x 12 paths (look-alikes, trailing and empty segments); oracle: 25-line reference routing function; all orders must agree with it"
 	spec := &HSpec{Prop: "C04", Name: "C04",
 		Obs: ObsSpec{
 			Hosts:   []string{"example.com", "a.example.com", "a.example.com:8080", "x.a.example.com", "y.x.a.example.com", "b.example.com", "other.org", "localhost", "localhost:80", "[::1]", "[::1]:80", ""},
@@ -195,7 +202,7 @@ func checkC04(t *testing.T, job *Job, res *Result) {
 	}
 	g.Distinct = len(g.DistinctKeys)
 	g.States = len(g.DistinctKeys)
-	res.Bounds = "all conflict-free tables of 2 services over an 11x9 binding universe and of 3 services over a 6x5 universe; every deploy order"
+	res.Bounds = "all conflict-free tables of 2 services over an 11x10 binding universe and of 3 services over a 6x6 universe; every deploy order"
 	if tier == "quick" {
 		res.Bounds += " (quick tier: first member restricted to every 3rd / 4th element of the universe)"
 	}
